@@ -21,13 +21,21 @@ RULE = ("seeded headers: CD = scale (0.05-2 arcsec/px) x rotation x optional fli
 TRUSTED = ["numpy long-double arithmetic", "numpy.linalg.lstsq for the best-fit inverse polynomial that defines the find=False allowance"]
 ASSUMPTIONS = ["CRVAL2 = +-90 exactly is not generated (LONPOLE default changes there); headers carry a CD matrix",
                "distortion terms are bounded so the map stays monotone over the image",
-               "'fitted-polynomial accuracy' = within max(10 x the maximum residual of the best least-squares inverse polynomial "
-               "of order forward+1 on a denser grid, 1e-6 px), for positions inside the image"]
+               "'fitted-polynomial accuracy' = within max(3 x the maximum residual of the best least-squares inverse polynomial "
+               "of order forward+1 on a denser grid, floor) for positions inside the image; floor = 1e-6 px with CRPIX inside the "
+               "image, 2e-3 px with CRPIX outside (ill-conditioned normal equations: measured noise up to 3.2e-4 px)"]
 REQUIRED = {"quick": {"C10.forward": 2500, "C10.refpix": 150, "C10.inverse": 1500, "C10.history": 150, "C10.scalar-array": 300},
             "thorough": {"C10.forward": 50000, "C10.refpix": 3000, "C10.inverse": 30000, "C10.history": 3000, "C10.scalar-array": 6000}}
 WATCHDOG = {"quick": 1200, "thorough": 7200}
 CASE_TIMEOUT = 600
 LD = np.longdouble
+# find=False ("to the fitted-polynomial accuracy"): allowed error = max(FIT_ALLOWANCE x r*, floor) where r* is the maximum
+# residual over the image of the best least-squares inverse polynomial of the same order, fitted by the reference on a
+# 70x70 grid.  Measured on 600 + 9600 random headers: with CRPIX inside the image the routine's own fit is within
+# 0.994 r*; with CRPIX up to 4 image sizes outside, its normal equations on unscaled monomials are ill-conditioned and add
+# numerical noise of up to 3.2e-4 px when r* itself is ~1e-6 px (ratios up to 215), hence the separate floor there.
+FIT_ALLOWANCE = 3.0
+FIT_FLOOR_FAR = 2e-3
 
 OBJ = {}          # id(WCS) -> {"header": dict, "calls": [...], "rstar": float|None}
 REPLAYING = [False]
@@ -252,17 +260,24 @@ def on_sky2image(call):
     err = np.sqrt((tx - xa) ** 2 + (ty - ya) ** 2).astype("f8")
     inside = (tx >= 1) & (tx <= h["naxis1"]) & (ty >= 1) & (ty <= h["naxis2"])
     exact = find or k == "tan" or not distort
+    # the statement speaks of positions in the image: requests whose true pixel lies outside are not judged (the root
+    # finder's tolerance is relative, 1e-8 x |pixel coordinate|, and the reference pixel may be 4 image sizes away)
+    judge = conv & np.asarray(inside)
     if exact:
         tol = np.full(xa.size, 1e-6)
-        judge = conv
     else:
         if r.get("rstar") is None:
             r["rstar"] = F.inverse_fit_residual(h)
-        tol = np.full(xa.size, max(10 * r["rstar"], 1e-6))
-        judge = conv & np.asarray(inside)
+        crpix_inside = (1 <= h["crpix1"] <= h["naxis1"]) and (1 <= h["crpix2"] <= h["naxis2"])
+        tol = np.full(xa.size, max(FIT_ALLOWANCE * r["rstar"], 1e-6 if crpix_inside else FIT_FLOOR_FAR))
+        COL.info["fit_inverse_judged_crpix_inside" if crpix_inside else "fit_inverse_judged_crpix_outside"] = COL.info.get(
+            "fit_inverse_judged_crpix_inside" if crpix_inside else "fit_inverse_judged_crpix_outside", 0) + int(judge.sum())
+        COL.info["max_fit_inverse_error_over_best_fit_residual"] = max(
+            COL.info.get("max_fit_inverse_error_over_best_fit_residual", 0.0),
+            float((err[judge] / max(r["rstar"], 1e-9)).max()) if judge.any() else 0.0)
     nsk = int((~judge).sum())
     if nsk:
-        COL.skipped("C10.inverse", "reference-newton-not-converged" if exact else "outside-image-or-not-converged", n=nsk)
+        COL.skipped("C10.inverse", "outside-image-or-reference-newton-not-converged", n=nsk)
     if not judge.any():
         return
     bad = judge & (err >= tol)
